@@ -55,13 +55,14 @@ CONSTANTS Node,          \* node ids
           MaxCfgReqs,    \* number of ChangeConfig requests (model bound)
           EdAddPromote, EdAddNonvoter, EdPromote, EdDemote, EdRemove, EdForceRemove,  \* node sets: the user edits a ChangeConfig request may combine
           G_ConfigCommittedFirst, G_OwnTermBeforeConfig, G_PromoteAfterRound, G_NonVoterNoElection, G_StepDownWhenDemoted,
-          G_XferCaughtUp, G_XferBlocksEntries, G_XferSuccessOnHigherTerm,
+          G_XferCaughtUp, G_XferBlocksEntries, G_XferSuccessOnHigherTerm, G_CommitMonotone,
           FixD4,         \* TRUE = snapshot labelled with the configuration in force at the snapshot index (repaired)
           FixD11,        \* TRUE = a stale log view reports entries in removed segments as not found (repaired)
           FixD3,         \* TRUE = canChangeConfig requires an own-term commit (repaired)
           FixD13,        \* TRUE = a follower flushes its log before every successful append reply (repaired)
           FixD5,         \* TRUE = onSnapshotTaken keeps leader.removeLTE >= log.PrevIndex (repaired)
           FixD2,         \* TRUE = leader.changeConfig caches numVoters of the NEW configuration (repaired)
+          ClientOps,     \* kinds of client operations the model submits: subset of {"update", "read", "barrier", "dirty"}
           MaxXfers,      \* bound on leadership-transfer requests
           MaxXferTries,  \* bound on timeout-now requests per node incarnation
           XferTargets,   \* targets a transfer request may name (None = any)
@@ -280,6 +281,14 @@ StoreEntryL(s, e) ==
         s4 == NotifyFlr(BeginFinishedRounds(s3), e.y = "cfg")
     IN IF s4.ldr.numVoters = 1 /\ s4.ldr.selfVoter THEN OnMajorityCommit(s4) ELSE s4
 
+\* storeEntry of a read / barrier / dirty read on the leader: queued at index last+1, never appended to the log;
+\* answered by the FSM once everything before it is committed (at once if nothing is outstanding)
+StoreNonLog(s, y, task) ==
+    IF (G_XferBlocksEntries /\ s.ldr.xfer.on) \/ ~s.ldr.selfVoter
+    THEN [s EXCEPT !.done = Append(@, [task |-> task, res |-> "inProgress", pos |-> 0])]
+    ELSE LET s1 == [s EXCEPT !.ldr.neQ = Append(@, [i |-> Last(s) + 1, y |-> y, log |-> FALSE, task |-> task, v |-> 0])]
+         IN IF ~s1.ldr.neQ[1].log THEN ApplyCommittedL(s1) ELSE s1
+
 DoChangeConfig(s, nodes, task) == StoreEntryL(s, [y |-> "cfg", v |-> 0, c |-> nodes, task |-> task])
 
 \* config.go leader.changeConfig -- NOTE numVoters is computed from the configuration being REPLACED
@@ -478,7 +487,11 @@ OnChangeConfig(s, nodes, task) ==
        ELSE IF \E i \in (DOMAIN nodes) \ DOMAIN cur : nodes[i].voter THEN reply("invalid")
        ELSE IF ~\E i \in DOMAIN nodes : nodes[i].voter /\ nodes[i].action = "none" THEN reply("invalid")
        ELSE LET s1 == CheckConfigActions(s, nodes, task)
-            IN IF IsCommitted(s1) THEN DoChangeConfig(s1, nodes, task) ELSE s1
+                \* (D15) an action performed and committed at once (single voter) leaves the configuration committed again:
+                \* the request is appended a second time with the same task, which has been answered already
+                \* (task.reply is first-wins)
+                t2 == IF s1.cfgL.index # s.cfgL.index THEN 0 ELSE task
+            IN IF IsCommitted(s1) THEN DoChangeConfig(s1, nodes, t2) ELSE s1
 
 --------------------------------------------------------------------------
 (* stateLoop mirror: complete role changes                                 *)
@@ -524,7 +537,11 @@ ApplyItems(s, items) ==
          IF it.log /\ it.i # s.fsmIdx + 1 THEN [s EXCEPT !.died = "fsm"]
          ELSE LET s1 == IF it.y = "upd" THEN [s EXCEPT !.fsmCmds = Append(@, it.v)] ELSE s
                   s2 == IF it.log THEN [s1 EXCEPT !.fsmIdx = it.i, !.fsmTerm = s.term] ELSE s1
-                  s3 == IF it.task # 0 THEN [s2 EXCEPT !.done = Append(@, [task |-> it.task, res |-> "ok", pos |-> Len(s1.fsmCmds)])] ELSE s2
+                  s3 == IF it.task # 0
+                        THEN [s2 EXCEPT !.done = Append(@, IF it.y \in {"read", "dirty"}
+                                                           THEN [task |-> it.task, res |-> "ok", pos |-> 0, rd |-> s1.fsmCmds]
+                                                           ELSE [task |-> it.task, res |-> "ok", pos |-> Len(s1.fsmCmds)])]
+                        ELSE s2
               IN ApplyItems(s3, Tail(items))
 FsmItem(s) ==
     LET it == Head(s.fsmQ)
@@ -540,6 +557,8 @@ FsmItem(s) ==
             IF s0.fsmIdx = s0.snapIdx THEN [s0 EXCEPT !.snapG.pc = "err", !.snapG.err = "noUpdates"]
             ELSE IF s0.fsmIdx < it.target THEN [s0 EXCEPT !.snapG.pc = "err", !.snapG.err = "snapshotThreshold"]
             ELSE [s0 EXCEPT !.snapG.pc = "got", !.snapG.idx = s0.fsmIdx, !.snapG.term = s0.fsmTerm, !.snapG.cmds = s0.fsmCmds]
+       ELSE IF it.kind = "dirtyRead"
+       THEN [s0 EXCEPT !.done = Append(@, [task |-> it.task, res |-> "ok", pos |-> 0, rd |-> s0.fsmCmds])]
        ELSE IF it.kind = "restore"
        THEN [s0 EXCEPT !.fsmIdx = s0.snapIdx, !.fsmTerm = s0.snapTerm, !.fsmCmds = s0.snapCmds]
        ELSE s0
@@ -567,7 +586,8 @@ OnTimeoutNowRequest(s) ==
     IF ~IsVoter(s.cfgL, s.id) THEN [s |-> s, result |-> "nonVoter"]
     ELSE [s |-> [s EXCEPT !.state = "C", !.leader = None, !.cndTransfer = TRUE], result |-> "success"]
 
-CanCommit(s, req, idx, tm) == req.commit >= idx /\ (~G_FollowerOwnTerm \/ tm = req.term) /\ idx > s.commit
+CanCommit(s, req, idx, tm) == req.commit >= idx /\ (~G_FollowerOwnTerm \/ tm = req.term)
+                                /\ (IF G_CommitMonotone THEN idx > s.commit ELSE req.commit > s.commit)
 
 \* the per-entry loop of onAppendEntriesRequest
 RECURSIVE Consume(_, _, _, _, _)
@@ -709,9 +729,17 @@ Abandoned(before, after, T) ==
     IN Concat([p \in pairs |-> ReqsOf(before[p[1]], p[1], p[2])], SetToSeq(pairs))
 
 \* completed tasks as a set of [n, op, res, k]: k-th completion with that (op, result) on node n in this step
-OpOf(task) == IF task < 1000 THEN "update" ELSE IF task < 2000 THEN "changeConfig" ELSE IF task < 3000 THEN "takeSnapshot" ELSE "transfer"
-DoneOfNode(s) == {[n |-> s.id, op |-> OpOf(s.done[k].task), res |-> s.done[k].res,
-                   k |-> Cardinality({i \in 1..k : OpOf(s.done[i].task) = OpOf(s.done[k].task) /\ s.done[i].res = s.done[k].res})]
+OpOf(task) == IF task < 1000 THEN "update" ELSE IF task < 2000 THEN "changeConfig" ELSE IF task < 3000 THEN "takeSnapshot"
+              ELSE IF task < 4000 THEN "transfer" ELSE IF task < 5000 THEN "read" ELSE IF task < 6000 THEN "barrier" ELSE "dirty"
+\* [n, op, res, k, task, val, pos, rd]: val = the command of an update; pos = its position in the state machine (or the index
+\* of a snapshot taken); rd = what a read returned
+DoneOfNode(s) == {LET d == s.done[k]
+                      op == OpOf(d.task)
+                  IN [n |-> s.id, op |-> op, res |-> d.res, task |-> d.task,
+                      k |-> Cardinality({i \in 1..k : OpOf(s.done[i].task) = op /\ s.done[i].res = d.res}),
+                      val |-> IF op = "update" THEN d.task ELSE 0,
+                      pos |-> IF op \in {"update", "takeSnapshot"} /\ d.res = "ok" THEN d.pos ELSE 0,
+                      rd  |-> IF "rd" \in DOMAIN d THEN d.rd ELSE << >>]
                   : k \in 1..Len(s.done)}
 \* every action ends here. T = the nodes this step touched (all others are exactly as the previous step left them)
 Commit(ns0, newRpcs, newOrph, e) ==
@@ -987,18 +1015,22 @@ LdrUpdates(i) ==
     /\ UNCHANGED ctr
 
 \* ---- clients / FSM ----
-ClientOp(n, id) ==
+ClientTask(op, id) == IF op = "update" THEN id ELSE IF op = "read" THEN 4000 + id ELSE IF op = "barrier" THEN 5000 + id ELSE 6000 + id
+ClientOp(n, op, id) ==
     /\ Up(n) /\ ctr.cmds < MaxCmds
     /\ LET s == node[n]
+           task == ClientTask(op, id)
+           e == [kind |-> "client", n |-> n, state |-> s.state, val |-> id, op |-> op, task |-> task]
        IN IF s.state = "L" /\ s.cur = "L"
-          THEN /\ Last(s) < MaxLog
-               /\ Commit([node EXCEPT ![n] = Post(StoreLogEntry(s, "upd", id, id))], rpcs, orph,
-                         [kind |-> "client", n |-> n, state |-> "L", val |-> id])
-          ELSE Commit([node EXCEPT ![n].done = Append(@, [task |-> id, res |-> "notLeader", pos |-> 0])], rpcs, orph,
-                      [kind |-> "client", n |-> n, state |-> s.state, val |-> id])
+          THEN /\ (op = "update" => Last(s) < MaxLog)
+               /\ Commit([node EXCEPT ![n] = Post(IF op = "update" THEN StoreLogEntry(s, "upd", id, id) ELSE StoreNonLog(s, op, task))], rpcs, orph, e)
+          ELSE IF op = "dirty"
+          THEN \* any node answers a dirty read from its own state machine (queued behind what the FSM goroutine still has to do)
+               Commit([node EXCEPT ![n].fsmQ = Append(@, [kind |-> "dirtyRead", task |-> task])], rpcs, orph, e)
+          ELSE Commit([node EXCEPT ![n].done = Append(@, [task |-> task, res |-> "notLeader", pos |-> 0])], rpcs, orph, e)
     /\ ctr' = [ctr EXCEPT !.cmds = @ + 1]
 
-Client(n) == ClientOp(n, ctr.cmds + 1)
+Client(n) == \E op \in ClientOps : ClientOp(n, op, ctr.cmds + 1)
 
 \* ---- membership requests (raft.go executeTask -> leader.onChangeConfig / Raft.bootstrap) ----
 CfgEdits == {[id |-> i, kind |-> "addPromote"] : i \in EdAddPromote} \cup {[id |-> i, kind |-> "addNonvoter"] : i \in EdAddNonvoter}
